@@ -456,6 +456,31 @@ func c13run(w *report.W) {
 		record("steps:\n  - command: c\n    agents:\n      "+key+": v\n      other: {"+strings.TrimPrefix(key, "? ")+": w}\n", "[scalar key in a nested mapping] ", 20)
 		record("steps:\n  - "+key+": v\n", "[scalar key as an unknown step] ", 20)
 	}
+	// a step whose typed field holds a scalar of another kind (a date where a string belongs, an integer beyond int64 as a key
+	// name): that step is malformed, the document is not - the result is usable, the step kept as unknown and reported
+	for _, text := range []string{
+		"steps:\n  - command: c\n    env: {BUILD_DATE: 2024-01-15}\n  - wait\n",
+		"steps:\n  - command: c\n    label: 2024-01-15\n",
+		"steps:\n  - command: c\n    key: 18446744073709551615\n",
+		"steps:\n  - command: c\n    cache: {paths: [2024-01-15]}\n",
+		"steps:\n  - group: g\n    steps:\n      - command: c\n        label: 2024-01-15T01:02:03Z\n      - wait\n",
+		"steps:\n  - command: c\n    plugins: [{./p: {at: 2024-01-15, n: 18446744073709551615}}]\n",
+	} {
+		if w.Take("usable|" + text) {
+			w.P.Evaluations++
+			o := c13judge(w, text)
+			w.Obs("malformed-step:" + o.class + o.kind)
+			switch {
+			case o.kind != "" && o.kind != "harness":
+				w.Violate(report.Violation{Kind: o.kind, Case: "[malformed step] " + text, Detail: o.detail, Size: 15, Replay: text})
+			case o.class == "hard-error":
+				w.Violate(report.Violation{Kind: "malformed-step-hard-error", Case: "[malformed step] " + text, Detail: "Parse returned a hard error for a document whose only flaw is one ill-typed step field (such steps are kept as unknown steps and reported in the warning)", Size: 15, Replay: text})
+			}
+		}
+	}
+	// a cache mapping that is disabled and carries other keys, at top level and inside a group
+	record("steps:\n  - command: c\n    cache: {disabled: true, name: foo, paths: [p]}\n  - group: g\n    steps:\n      - command: d\n        cache: {disabled: true, zzz: 1}\n", "[disabled cache mapping] ", 12)
+	record(`{"steps":[{"command":"c","cache":{"disabled":true}},{"command":"d","cache":{"disabled":false,"name":"n"}}]}`, "[disabled cache mapping] ", 12)
 	// groups nested in groups with a step at the bottom that falls back (unknown scalar / ill-typed command step / mapping
 	// without a kind): every enclosing group is reported once; inputs of <1 kB must parse within 60 s (they take microseconds)
 	for _, depth := range []int{1, 2, 3, 4, 6, 8, 10, 12, 14, 16, 18, 20, 22} {
